@@ -15,12 +15,14 @@ const pid = "C06"
 
 // Case is one limit, one message near it, a SIZE parameter choice and a follow-up.
 type Case struct {
-	Limit   int    `json:"limit"`
-	Target  int    `json:"target"`  // wanted transmitted size (bytes incl. headers, CRLF line ends)
-	Lines   int    `json:"lines"`   // body split in this many lines (band between the two size measures = #line breaks)
-	BareLF  bool   `json:"bare_lf"` // body lines end in bare LF (both measures coincide)
-	Size    string `json:"size"`    // "", "true", "under", "over", "huge", "junk"; Pad zero-pads the number
-	Pad     int    `json:"pad,omitempty"`
+	Limit  int    `json:"limit"`
+	Target int    `json:"target"`  // wanted transmitted size (bytes incl. headers, CRLF line ends)
+	Lines  int    `json:"lines"`   // body split in this many lines (band between the two size measures = #line breaks)
+	BareLF bool   `json:"bare_lf"` // body lines end in bare LF (both measures coincide)
+	Size   string `json:"size"`    // "", "true", "under", "over", "huge", "junk"; Pad zero-pads the number
+	Pad    int    `json:"pad,omitempty"`
+	// Key is the spelling of the SIZE keyword ("" = SIZE): ESMTP parameter keywords are not case-sensitive
+	Key     string `json:"key,omitempty"`
 	Backend string `json:"backend"`
 	// Extra adds a second recipient of the big message: "" none, "discard" one whose domain is
 	// not stored, "other" another stored one.
@@ -34,7 +36,7 @@ type Case struct {
 
 var prop = hx.Prop[Case]{
 	ID: pid, Name: "limit",
-	Rule: "limit M in 200..65536 (thorough: up to 1 MiB); message sizes concentrated at M-3..M+3, M/2, 2M, 10M, and M + 1..5 MiB; SIZE parameter absent, " +
+	Rule: "limit M in 200..65536 (thorough: up to 1 MiB); message sizes concentrated at M-3..M+3, M/2, 2M, 10M, and M + 1..5 MiB; SIZE parameter (keyword in upper, lower or mixed case) absent, " +
 		"truthful, understated, overstated but <= M, > M, non-numeric; oracle with two size measures lo (after un-stuffing, CRLF->LF) and hi " +
 		"(bytes on the wire): SIZE > M -> refused at MAIL; lo > M -> refusal after the final dot and store unchanged; hi <= M -> 250 and " +
 		"stored; in between either; the follow-up small transaction on the same connection must succeed; non-trivial = lo > M without a " +
@@ -64,6 +66,7 @@ var prop = hx.Prop[Case]{
 		c.BareLF = rapid.Bool().Draw(t, "barelf")
 		c.Size = rapid.SampledFrom([]string{"", "", "true", "under", "over", "huge", "junk"}).Draw(t, "size")
 		c.Pad = rapid.SampledFrom([]int{0, 0, 0, 7, 10, 12}).Draw(t, "pad") // RFC 1870: size-value = 1*20DIGIT, leading zeros are decimal digits
+		c.Key = rapid.SampledFrom([]string{"", "", "", "size", "Size", "sIzE"}).Draw(t, "key")
 		c.Extra = rapid.SampledFrom([]string{"", "", "discard", "other"}).Draw(t, "extra")
 		c.Lead = rapid.SampledFrom([]int{0, 0, 0, 1, 2, 5}).Draw(t, "lead")
 		c.Follow = rapid.SampledFrom([]string{"", "", "body", "body", "size", "size+body", "rset+body"}).Draw(t, "follow")
@@ -160,7 +163,12 @@ func run(c Case) *hx.Outcome {
 		mail += " SIZE=12x"
 	}
 	if declared >= 0 {
-		mail += fmt.Sprintf(" SIZE=%0*d", c.Pad, declared)
+		key := "SIZE"
+		if c.Key != "" {
+			key = c.Key
+			o.Class("SIZE keyword in another letter case")
+		}
+		mail += fmt.Sprintf(" %s=%0*d", key, c.Pad, declared)
 		if c.Pad > 0 {
 			o.Class("zero-padded SIZE")
 		}
